@@ -5,6 +5,8 @@ import (
 	"encoding/base64"
 	"encoding/json"
 	"fmt"
+	"reflect"
+	"regexp"
 	"strings"
 	"testing"
 
@@ -214,8 +216,11 @@ func c14Doc(t *rapid.T, did string) *didtypes.DIDDocument {
 	if rapid.Bool().Draw(t, "ctx") {
 		doc.Contexts = &didtypes.JSONStringOrStrings{ctxV1}
 	}
-	if rapid.IntRange(0, 3).Draw(t, "ctl") == 0 {
+	switch rapid.IntRange(0, 5).Draw(t, "ctl") {
+	case 0:
 		doc.Controller = &didtypes.JSONStringOrStrings{did}
+	case 1:
+		doc.Controller = &didtypes.JSONStringOrStrings{did, world.DIDKeys()[2].DID()}
 	}
 	vm := &didtypes.VerificationMethod{Id: did + "#k", Type: es256k2019, Controller: did, PublicKeyBase58: base58.Encode(k.Pub)}
 	doc.VerificationMethods = []*didtypes.VerificationMethod{vm}
@@ -279,8 +284,121 @@ func genValidMsg(t *rapid.T, ti int) sdk.Msg {
 	}
 }
 
+// mutSite is one place of a message (found by reflection, nested messages and repeated
+// fields included) where a structural edit can be made.
+type mutSite struct {
+	path  string
+	apply func(t *rapid.T) string
+}
+
+func mutSites(v reflect.Value, path string, out *[]mutSite) {
+	switch v.Kind() {
+	case reflect.Ptr:
+		if !v.IsNil() {
+			mutSites(v.Elem(), path, out)
+		}
+	case reflect.Struct:
+		for i := 0; i < v.NumField(); i++ {
+			f := v.Type().Field(i)
+			if f.PkgPath != "" || strings.HasPrefix(f.Name, "XXX_") {
+				continue
+			}
+			mutSites(v.Field(i), path+"."+f.Name, out)
+		}
+	case reflect.Interface:
+		if !v.IsNil() {
+			mutSites(v.Elem(), path, out)
+		}
+	case reflect.String:
+		if v.CanSet() {
+			*out = append(*out, mutSite{path, func(t *rapid.T) string {
+				switch rapid.IntRange(0, 2).Draw(t, "string-edit") {
+				case 0:
+					v.SetString(v.String() + "a")
+					return "character appended"
+				case 1:
+					if s := v.String(); len(s) > 0 {
+						v.SetString(s[:len(s)-1])
+						return "last character dropped"
+					}
+				}
+				v.SetString(v.String() + " ")
+				return "blank appended"
+			}})
+		}
+	case reflect.Slice:
+		if v.Type().Elem().Kind() == reflect.Uint8 {
+			if v.CanSet() {
+				*out = append(*out, mutSite{path, func(t *rapid.T) string {
+					v.SetBytes(append(append([]byte{}, v.Bytes()...), 0))
+					return "zero byte appended"
+				}})
+			}
+			return
+		}
+		if v.CanSet() && v.Len() > 0 {
+			*out = append(*out, mutSite{path, func(t *rapid.T) string {
+				n := v.Len()
+				i := rapid.IntRange(0, n-1).Draw(t, "element")
+				switch rapid.IntRange(0, 2).Draw(t, "list-edit") {
+				case 0: // repeat an element (next to itself or at the end)
+					nv := reflect.MakeSlice(v.Type(), 0, n+1)
+					for j := 0; j < n; j++ {
+						nv = reflect.Append(nv, v.Index(j))
+					}
+					nv = reflect.Append(nv, v.Index(i))
+					v.Set(nv)
+					return "element repeated"
+				case 1:
+					if n > 1 {
+						j := (i + 1) % n
+						a, b := reflect.ValueOf(v.Index(i).Interface()), reflect.ValueOf(v.Index(j).Interface())
+						v.Index(i).Set(b)
+						v.Index(j).Set(a)
+						return "two elements swapped"
+					}
+				}
+				nv := reflect.MakeSlice(v.Type(), 0, n)
+				for j := 0; j < n; j++ {
+					if j != i {
+						nv = reflect.Append(nv, v.Index(j))
+					}
+				}
+				v.Set(nv)
+				return "element removed"
+			}})
+		}
+		for i := 0; i < v.Len(); i++ {
+			mutSites(v.Index(i), fmt.Sprintf("%s[%d]", path, i), out)
+		}
+	}
+}
+
+// structuralMutation copies m and edits one place of the copy found by reflection.
+func structuralMutation(t *rapid.T, m sdk.Msg, ti int) (sdk.Msg, string) {
+	o := msgFactories[ti]()
+	if err := proto.Unmarshal(protoOf(m), o); err != nil {
+		return nil, ""
+	}
+	var sites []mutSite
+	mutSites(reflect.ValueOf(o), "", &sites)
+	if len(sites) == 0 {
+		return nil, ""
+	}
+	s := sites[rapid.IntRange(0, len(sites)-1).Draw(t, "site")]
+	what := s.apply(t)
+	// class of the site without indices, for the statistics
+	cls := regexp.MustCompile(`\[\d+\]`).ReplaceAllString(s.path, "[]")
+	return o, "structural edit: " + what + " at " + cls
+}
+
 // mutateMsg produces a near-collision partner of m by one operator.
 func mutateMsg(t *rapid.T, m sdk.Msg, ti int) (sdk.Msg, string) {
+	if rapid.IntRange(0, 2).Draw(t, "structural") == 0 {
+		if o, op := structuralMutation(t, m, ti); o != nil {
+			return o, op
+		}
+	}
 	switch rapid.IntRange(0, 4).Draw(t, "operator") {
 	case 0: // same fields under another type
 		tj := rapid.IntRange(0, len(msgFactories)-1).Draw(t, "other-type")
